@@ -91,6 +91,11 @@ def thorough(ck):
                 continue
             jobs.append(("seeded", name, patch))
     for name, patch, meta in corpus("benign"):
+        if prop in (meta.get("known_false_alarm") or {}):
+            # a confirmed behaviour-preserving variant on which this check is known to raise an alarm (an open false alarm, listed in DESIGN 10.7):
+            # reported in the evidence, not decisive for the exit code - it is a defect of the checker, not a verdict about the tree
+            res.setdefault("benign_known_false_alarm", []).append(name)
+            continue
         jobs.append(("benign", name, patch))
     from concurrent.futures import ProcessPoolExecutor
     nproc = max(1, min(int(os.environ.get("FXLINT_JOBS", "16")), len(jobs) or 1))
@@ -110,7 +115,7 @@ def thorough(ck):
             else:
                 res["benign_silent"].append(name)
     clear_caches()
-    ck.extra["self_validation"] = {k: (v if k.endswith(("missed", "alarm", "skipped", "declined", "known_miss")) else len(v)) for k, v in res.items()}
+    ck.extra["self_validation"] = {k: (v if k.endswith(("missed", "alarm", "skipped", "declined", "known_miss", "known_false_alarm")) else len(v)) for k, v in res.items()}
     ck.extra["self_validation"]["seeded_reported_detail"] = res["seeded_reported"]
     from .pinned import PINNED_DIGEST
     on_pinned = ck.prog.digest == PINNED_DIGEST
